@@ -158,6 +158,7 @@ typedef struct
 } PeekState ;
 
 void pk_get (SNDFILE *sf, PeekState *st, int with_blobs) ;
+uint64_t pk_meta_hash (SNDFILE *sf) ;	/* SF_INFO, settings and every metadata item the handle holds (no API calls, no side effects) */
 int  pk_max_error (void) ;			/* SFE_MAX_ERROR */
 int  pk_sf_buffer_len (void) ;		/* SF_BUFFER_LEN */
 
